@@ -169,17 +169,23 @@ def demo(run, cfgbytes, good, corruptions):
     """binding demonstration: an accepted real case, then the same case with one corrupted logged field -> TLC must
     reject exactly at that out line; a dropped out event -> rejected"""
     wd = vlib.scratch("verif.vedemo.")
-    for i, (what, bad) in enumerate(corruptions):
-        p = os.path.join(wd, "c%d.ndjson" % i)
-        open(p, "w").write("\n".join([good[0], good[1], good[0], bad]) + "\n")
-        v = vlib.validate_trace(VE, "VersionEditsTrace", "TraceRun.cfg", p, extra_files={"TraceRun.cfg": cfgbytes})
-        if v.accepted or v.hwm != 3:
-            raise vlib.Inconclusive("binding demo: corrupted output (%s) not rejected where expected (hwm=%d)\n%s" % (what, v.hwm, v.tlc.out[-1500:]))
-    p = os.path.join(wd, "d.ndjson")
-    open(p, "w").write("\n".join([good[0], good[0], good[1]]) + "\n")
-    v = vlib.validate_trace(VE, "VersionEditsTrace", "TraceRun.cfg", p, extra_files={"TraceRun.cfg": cfgbytes})
-    if v.accepted or v.hwm != 1:
-        raise vlib.Inconclusive("binding demo: dropped out event not rejected (hwm=%d)" % v.hwm)
+
+    def one(i):
+        if i < len(corruptions):
+            what, bad = corruptions[i]
+            p = os.path.join(wd, "c%d.ndjson" % i)
+            open(p, "w").write("\n".join([good[0], good[1], good[0], bad]) + "\n")
+            v = vlib.validate_trace(VE, "VersionEditsTrace", "TraceRun.cfg", p, extra_files={"TraceRun.cfg": cfgbytes})
+            if v.accepted or v.hwm != 3:
+                raise vlib.Inconclusive("binding demo: corrupted output (%s) not rejected where expected (hwm=%d)\n%s" % (what, v.hwm, v.tlc.out[-1500:]))
+        else:
+            p = os.path.join(wd, "d.ndjson")
+            open(p, "w").write("\n".join([good[0], good[0], good[1]]) + "\n")
+            v = vlib.validate_trace(VE, "VersionEditsTrace", "TraceRun.cfg", p, extra_files={"TraceRun.cfg": cfgbytes})
+            if v.accepted or v.hwm != 1:
+                raise vlib.Inconclusive("binding demo: dropped out event not rejected (hwm=%d)" % v.hwm)
+    with concurrent.futures.ThreadPoolExecutor(max_workers=4) as ex:
+        list(ex.map(one, range(len(corruptions) + 1)))
     run.cov["binding_demo"] = ("accepted real case re-validated with " + "; ".join(w for w, _ in corruptions) +
                                " -> each rejected at that line; a dropped out event -> rejected")
 
@@ -223,29 +229,31 @@ def run_c23(run):
     if quick:
         scopes = [("2 physical tables (points / points+range keys), levels {0,6}, every base placement, <=3 edits of <=2 table ops (add/delete/move)",
                    consts("CatPhys2", [0, 6], [], 3, 2)),
-                  ("excise: physical table replaced by 2 virtual tables sharing its backing + a virtual table on a foreign backing, levels {0,6}, <=2 edits of <=3 table ops, backing removal",
-                   consts("CatExcise", [0, 6], [], 2, 3)),
-                  ("blob files: 2 tables + 1 virtual referencing blob files {1,2}, level {6}, <=2 edits of <=1 table op, blob add/delete/replace, marks",
-                   consts("CatBlob", [6], [1, 2], 2, 1, marks=True))]
-        nrandom = 6000
-        big = None
+                  ("2 physical tables, levels {0,6}, <=2 edits of <=1 table op, marks for compaction", consts("CatPhys2", [0, 6], [], 2, 1, marks=True)),
+                  ("excise: physical table replaced by 2 virtual tables sharing its backing + a virtual table on a foreign backing, level {6}, <=2 edits of <=3 table ops, backing removal",
+                   consts("CatExcise", [6], [], 2, 3)),
+                  ("blob files: 2 tables + 1 virtual referencing blob files {1,2}, level {6}, <=2 edits of <=1 table op, blob add/delete/replace",
+                   consts("CatBlob", [6], [1, 2], 2, 1))]
+        nrandom = 3000
     else:
         scopes = [("3 physical tables (points / points+range keys / range keys only), levels {0,5,6}, every base placement, <=2 edits of <=2 table ops",
                    consts("CatPhys3", [0, 5, 6], [], 2, 2)),
                   ("2 physical tables, levels {0,6}, every base placement, <=4 edits of <=2 table ops", consts("CatPhys2", [0, 6], [], 4, 2)),
-                  ("excise: physical table replaced by 2 virtual tables sharing its backing + a virtual table on a foreign backing, levels {0,6}, <=3 edits of <=3 table ops, backing removal",
-                   consts("CatExcise", [0, 6], [], 3, 3)),
-                  ("blob files: 2 tables + 1 virtual referencing blob files {1,2}, levels {0,6}, <=2 edits of <=2 table ops, blob add/delete/replace, marks",
-                   consts("CatBlob", [0, 6], [1, 2], 2, 2, marks=True))]
+                  ("excise: physical table replaced by 2 virtual tables sharing its backing + a virtual table on a foreign backing, level {6}, <=3 edits of <=3 table ops, backing removal",
+                   consts("CatExcise", [6], [], 3, 3)),
+                  ("excise: same catalog, levels {0,6}, <=2 edits of <=3 table ops", consts("CatExcise", [0, 6], [], 2, 3)),
+                  ("blob files: 2 tables + 1 virtual referencing blob files {1,2}, level {6}, <=2 edits of <=2 table ops, blob add/delete/replace, marks",
+                   consts("CatBlob", [6], [1, 2], 2, 2, marks=True))]
         nrandom = 120000
-        big = ("design only (not emitted): 4 physical tables (one overlapping two others), levels {0,5,6}, <=3 edits of <=2 table ops",
-               consts("CatPhys4", [0, 5, 6], [], 3, 2, emit=False))
     tdir = vlib.scratch("verif.c23.")
     tcfg = trace_cfg()
     total_acc = total_vac = total_rej = 0
     allpairs = []
-    for i, (name, cs) in enumerate(scopes):
-        r, cases = design_emit(run, "VersionEdits/" + name, cfg_text("Spec", cs, invariants=INV))
+    # phase 1: all design runs in parallel; phase 2: drivers; phase 3: all validations in parallel
+    with concurrent.futures.ThreadPoolExecutor(max_workers=len(scopes)) as ex:
+        emitted = list(ex.map(lambda sc: design_emit(run, "VersionEdits/" + sc[0], cfg_text("Spec", sc[1], invariants=INV)), scopes))
+    jobs = []
+    for i, ((name, cs), (r, cases)) in enumerate(zip(scopes, emitted)):
         if not cases:
             raise vlib.Inconclusive("TLC emitted no inputs for scope " + name)
         cf = os.path.join(tdir, "cases%d.jsonl" % i)
@@ -259,17 +267,8 @@ def run_c23(run):
         pairs = read_pairs(tf)
         if len(pairs) != len(cases):
             raise vlib.Inconclusive("driver executed %d of %d emitted inputs" % (len(pairs), len(cases)))
-        acc, vac, rej = validate_pairs(run, tcfg, pairs, "tlc:" + name, shards=SHARDS if quick else 2 * SHARDS)
-        if vac:
-            raise vlib.Inconclusive("TLC-emitted inputs judged inadmissible by the trace spec (%d)" % vac)
-        total_acc += acc; total_rej += rej
+        jobs.append(("tlc:" + name, pairs, True))
         allpairs += pairs
-    if big:
-        r = vlib.tlc(VE, "VersionEdits", "Run.cfg", workers=WORKERS, timeout=3000, heap="8g",
-                     extra_files={"Run.cfg": cfg_text("Spec", big[1], invariants=INV[:4])})
-        if r.timed_out or not r.ok:
-            raise vlib.Inconclusive("design run %s failed (%s)\n%s" % (big[0], r.violation, r.out[-2000:]))
-        run.add_design("VersionEdits/" + big[0], r)
     # seeded random inputs over larger parameters; TLC decides admissibility
     tf = os.path.join(tdir, "random.ndjson")
     rc, out = vlib.run_driver(binp, "TestVVe$", env=dict(VERIF_OUT=tf, VERIF_RANDOM=str(nrandom), VERIF_SEED=str(run.seed),
@@ -278,10 +277,16 @@ def run_c23(run):
         raise vlib.Inconclusive("manifest TestVVe (random) died:\n" + out[-3000:])
     rpairs = read_pairs(tf)
     rlabel = "random <=6 physical + virtual tables, levels {0,3,5,6}, <=4 edits of <=3 table ops, excises, <=3 blob files, marks"
-    acc, vac, rej = validate_pairs(run, tcfg, rpairs, rlabel, shards=SHARDS if quick else 2 * SHARDS)
-    total_acc += acc; total_vac += vac; total_rej += rej
-    if vac > len(rpairs) // 2:
-        raise vlib.Inconclusive("more than half of the random inputs are inadmissible (%d of %d): generator out of step with the spec" % (vac, len(rpairs)))
+    jobs.append((rlabel, rpairs, False))
+    per = max(3, (SHARDS if quick else 2 * SHARDS) * 2 // len(jobs))
+    with concurrent.futures.ThreadPoolExecutor(max_workers=len(jobs)) as ex:
+        results = list(ex.map(lambda j: validate_pairs(run, tcfg, j[1], j[0], shards=per if j[2] else 2 * per), jobs))
+    for (label, pairs, must), (acc, vac, rej) in zip(jobs, results):
+        if must and vac:
+            raise vlib.Inconclusive("TLC-emitted inputs judged inadmissible by the trace spec (%d, %s)" % (vac, label))
+        total_acc += acc; total_vac += vac; total_rej += rej
+        if not must and vac > len(pairs) // 2:
+            raise vlib.Inconclusive("more than half of the random inputs are inadmissible (%d of %d): generator out of step with the spec" % (vac, len(pairs)))
     if total_rej == 0:
         good = None
         for a, b in allpairs + rpairs:
